@@ -13,5 +13,9 @@ check("C03", "exploration",
       "Reference-model monitor: probe commands bound to generated overlapping bind tables (incl. macros) in an emptied main keymap; the probe invocation log (which binding, at which delivered chunk) must equal an independent longest-match dispatcher on thousands of (table, input, chunking) triples.",
       TCB + " Inputs whose expected behaviour the statement leaves open are skipped and counted.", "runtime monitoring: reference dispatcher vs probe-command invocation log", "DESIGN.md 5 C03")
 
+check("C04", "exploration",
+      "Independent layout oracle vs the emulator grid at every main input wait (prompt cells, wrapping incl. wide characters at the margin, one row per embedded newline, blank elsewhere, cursor cell, no remnants of earlier taller frames), judged under two ESC[K terminal models (violation only if wrong under both), over thousands of recall+edit sessions on 8-120 column terminals.",
+      TCB + " Frames are classed by geometric cause (plain / tab / zero-width / wide-at-margin / exact-fill / wrapped multi-line / narrow prompt); known findings cover only the listed non-plain classes.", "runtime monitoring: terminal emulator + independent layout model", "DESIGN.md 5 C04")
+
 for _p in ["C03","C04","C05","C06","C07","C08","C09","C10","C11","C12","C13","C14","C15","C16","C17","C18","C19","C20"]:
     NOT_YET[_p] = "check under construction in this session (runtime monitor designed in DESIGN.md section 5, not yet registered)"
